@@ -217,6 +217,10 @@ func (s *Scanner) Scan(src interface{}) error {
 	// for interfaces.
 	switch i.(type) {
 	case *[]byte:
+		if s.Tags.Contains("json") {
+			// Valuer wrote the bytes as a JSON (base64) string: decode them below the way they were encoded.
+			break
+		}
 		if str, ok := src.(string); ok {
 			s.value.Set(reflect.ValueOf([]byte(str)))
 			return nil
